@@ -259,8 +259,18 @@ func (g *gen) call(d int) string {
 }
 
 func (g *gen) methodCall(d int) string {
+	// receiver: the object o, or nil (lonely / thoughtful chains skip or absorb the call, the arguments are still evaluated)
+	chain := rapid.SampledFrom([]string{".", ".", "&.", "~.", "=."}).Draw(g.t, "addchain")
+	if chain != "." && g.intn(2, "nilrecv") == 0 {
+		g.n++
+		g.kinds["chain "+chain+" on nil receiver"] = true
+		return fmt.Sprintf("(mk(%d, nil)%sm(", g.n, chain) + g.args(d) + ") || 0)"
+	}
+	if chain != "." {
+		g.kinds["chain "+chain] = true
+	}
 	recv := g.marker("recv")
-	return recv + ".m(" + g.args(d) + ")"
+	return recv + chain + "m(" + g.args(d) + ")"
 }
 
 const orderPrelude = `mk := {|k, v| "#{k}".p; v}
@@ -357,6 +367,15 @@ func TestEvaluationOrder(t *testing.T) {
 
 // fixed order programs for constructs the random generator does not produce
 var fixedOrder = []OrderCase{
+	// additional chain contexts: the arguments are evaluated exactly once even when the call itself is skipped or fails
+	{Src: "mk(1, nil)&.m(mk(2, 2), k: mk(3, 3))", N: 3},
+	{Src: "mk(1, nil)~.m(mk(2, 2), mk(3, 3))", N: 3},
+	{Src: "mk(1, nil)&.(mk(2, 2))m(mk(3, 3))", N: 3},
+	{Src: "mk(1, o)&.m(mk(2, 2), q: mk(3, 3))", N: 3},
+	{Src: "mk(1, 5)~.nosuch(mk(2, 2), mk(3, 3))", N: 3},
+	{Src: "mk(1, [nil, o])&@m(mk(2, 2), k: mk(3, 3))", N: 3},
+	{Src: "mk(1, [o, nil])~@m(mk(2, 2), mk(3, 3))", N: 3},
+	{Src: "mk(1, nil)&$(mk(2, 2))m(mk(3, 3))", N: 3},
 	{Src: "{|k: mk(1, 1), q: mk(2, 2), z: mk(3, 3)| 1}", N: 3},
 	{Src: "<{|k: mk(1, 1), q: mk(2, 2)| yield k}>", N: 2},
 	{Src: "f(k: mk(1, 1), k: mk(2, 2), k: mk(3, 3))", N: 3},
